@@ -108,6 +108,64 @@ Proof.
   destruct (parse_line addr_ok l); [reflexivity|discriminate|discriminate].
 Qed.
 
+(** Conversely: the separator that does not occur earlier is the one found. *)
+Lemma cut2_complete a b p q :
+  (forall p1 p2, p ++ [a] = p1 ++ a :: b :: p2 -> False) ->
+  cut2 a b (p ++ a :: b :: q) = Some (p, q).
+Proof.
+  induction p as [|x p IH]; intros H.
+  - cbn. rewrite !N.eqb_refl. reflexivity.
+  - cbn [app cut2].
+    destruct (p ++ a :: b :: q) as [|y s''] eqn:Es; [destruct p; discriminate|].
+    destruct ((x =? a) && (y =? b)) eqn:E.
+    + exfalso. apply andb_true_iff in E as [E1 E2]. apply N.eqb_eq in E1, E2. subst x y.
+      destruct p as [|w p'].
+      * cbn in Es. inversion Es; subst. apply (H [] []). reflexivity.
+      * cbn in Es. inversion Es; subst. apply (H [] (p' ++ [a])). reflexivity.
+    + rewrite IH; [reflexivity|].
+      intros p1 p2 E'. apply (H (x :: p1) p2). cbn. rewrite E'. reflexivity.
+Qed.
+
+Lemma line_ok_parse addr_ok l : line_ok addr_ok l -> parse_line addr_ok l = LOk.
+Proof.
+  intros H. destruct H as [|r|c r Hc Hp Ha|doms ups u0 us Hfirst Hups Hd Hf Hu].
+  - reflexivity.
+  - cbn. reflexivity.
+  - cbn [parse_line]. assert ((c =? hash) = false) as -> by (apply N.eqb_neq; exact Hc).
+    rewrite Hp. cbn [negb]. rewrite Ha. reflexivity.
+  - cbn [parse_line]. change (lbrack =? hash) with false. cbv iota.
+    assert (Hp : has_prefix [lbrack; slash] (lbrack :: slash :: doms ++ slash :: rbrack :: ups) = true).
+    { apply has_prefix_spec. eexists. reflexivity. }
+    rewrite Hp. cbn [negb skipn].
+    rewrite (cut2_complete _ _ _ _ Hfirst).
+    destruct ups as [|u ups']; [congruence|].
+    assert (forallb spec_domain_ok (split slash doms) = true) as ->.
+    { apply forallb_forall. intros h Hh. apply spec_domain_ok_iff. rewrite Forall_forall in Hd. auto. }
+    cbn [negb]. rewrite Hf.
+    destruct (eqb_bytes u0 [hash]) eqn:E0; [reflexivity|].
+    destruct Hu as [->|Hu]; [rewrite eqb_bytes_refl in E0; discriminate|].
+    assert (forallb addr_ok (u0 :: us) = true) as ->; [|reflexivity].
+    apply forallb_forall. rewrite Forall_forall in Hu. exact Hu.
+Qed.
+
+Lemma parse_line_iff addr_ok l : parse_line addr_ok l = LOk <-> line_ok addr_ok l.
+Proof. split; [apply parse_line_ok|apply line_ok_parse]. Qed.
+
+Lemma existsb_false_intro {A} (f : A -> bool) l : (forall x, In x l -> f x = false) -> existsb f l = false.
+Proof.
+  induction l as [|a l IH]; cbn; intros H; [reflexivity|].
+  rewrite (H a) by auto. cbn. apply IH. auto.
+Qed.
+
+Lemma parse_upstreams_iff addr_ok lines :
+  parse_upstreams addr_ok lines = LOk <-> Forall (line_ok addr_ok) lines.
+Proof.
+  split; [apply parse_upstreams_ok|]. intros H. unfold parse_upstreams.
+  rewrite Forall_forall in H.
+  rewrite !existsb_false_intro; [reflexivity| |];
+    intros r Hr; apply in_map_iff in Hr as (l & <- & Hl); rewrite (line_ok_parse _ _ (H l Hl)); reflexivity.
+Qed.
+
 (** * What validate accepts *)
 
 Definition valid_client (cfg : config) (c : client) : Prop :=
@@ -136,6 +194,17 @@ Proof.
   - apply N.eqb_neq. exact E3.
   - apply parse_upstreams_ok. exact E4.
   - apply Forall_forall. intros t Ht. rewrite forallb_forall in E5. apply tag_ok_In. auto.
+Qed.
+
+Lemma validate_iff cfg c : validate cfg c = EOk <-> valid_client cfg c.
+Proof.
+  split; [apply validate_accepts|]. intros (H1 & H2 & H3 & H4 & H5). unfold validate.
+  destruct (c_name c) as [|x n] eqn:En; [congruence|]. cbn [length Nat.eqb].
+  destruct (ids_len c) as [|k] eqn:Ei; [congruence|]. cbn [Nat.eqb].
+  assert ((c_uid c =? 0) = false) as -> by (apply N.eqb_neq; exact H3).
+  rewrite (proj2 (parse_upstreams_iff _ _) H4).
+  assert (forallb (tag_ok (cfg_tags cfg)) (c_tags c) = true) as ->; [|reflexivity].
+  apply forallb_forall. intros t Ht. apply tag_ok_In. rewrite Forall_forall in H5. auto.
 Qed.
 
 (** The verdict classes: a tag outside the allowed list is never accepted,
